@@ -38,7 +38,7 @@ func extensionOps(ch *Chain, r *hx.Rng) []*ref.Op {
 }
 
 func checkC04(c *hx.Ctx) {
-	c.Rule("(a) base history ending in an applied deactivate, extended by 1-8 later-anchored or unpublished (time stamp before or after the deactivate) operations drawn from: valid updates/recovers/deactivates by every key that ever existed in the chain, duplicate creates, forgeries; result must stay deactivated/empty/no commitments; (b) the document handler with its default decorator must refuse update, recover and deactivate requests for that DID and record no writer Add / unpublished Put; (c) history containing a recover at (t,n), extended by valid updates anchored before (t,n) signed by the key the recover newly commits to or by older keys: result unchanged; (d) deactivates anchored through real batch files (alone, or next to a create / update of other DIDs), followed by a batch with a validly signed update of the deactivated DID: deactivated after every batch; (e) the deactivate (or superseding recover) anchored after earlier operations that reveal the same key but can never be applied (cycle-closing, self-committing, foreign signature): it still takes effect; non-trivial = extension contains at least one validly signed operation")
+	c.Rule("(a) base history ending in an applied deactivate, extended by 1-8 later-anchored or unpublished (time stamp before or after the deactivate) operations drawn from: valid updates/recovers/deactivates by every key that ever existed in the chain, duplicate creates, forgeries; result must stay deactivated/empty/no commitments; (b) the document handler with its default decorator must refuse update, recover and deactivate requests for that DID and record no writer Add / unpublished Put; (c) history containing a recover at (t,n), extended by valid updates anchored before (t,n) signed by the key the recover newly commits to or by older keys: result unchanged; (d) deactivates anchored through real batch files (alone, or next to a create / update of other DIDs), followed by a batch with a validly signed update of the deactivated DID: deactivated after every batch; (e) the deactivate (or superseding recover) anchored after earlier operations that reveal the same key but can never be applied (cycle-closing, self-committing, foreign signature): it still takes effect; (f) create and deactivate both still pending in the unpublished-operation store: reported as deactivated, refused at intake; after version queries on a node whose store hands out its own slice the DID is still deactivated; non-trivial = extension contains at least one validly signed operation")
 	nCases := c.N(500, 6000)
 	root := c.Rng("cases")
 	seeds := make([]uint64, nCases)
@@ -121,6 +121,22 @@ func checkC04(c *hx.Ctx) {
 			store.Set(ch.U.Suffix, ToAnchored(ch.U.Suffix, pubOps))
 			unpub := &recUnpub{ops: ToAnchored(ch.U.Suffix, unpubOps)}
 			proc := processor.New("verif", store, pc, processor.WithUnpublishedOperationStore(unpub))
+			// the node is first asked for earlier versions of the DID (its store hands out its own slice, like the library's mock
+			// store): questions about the past do not bring the DID back to life
+			store.ShareSlice = true
+			for _, o := range pubOps {
+				for _, T := range []uint64{o.Time - 1, o.Time} {
+					_, _ = proc.Resolve(ch.U.Suffix, document.WithVersionTime(rfc3339(T)))
+				}
+				_, _ = proc.Resolve(ch.U.Suffix, document.WithVersionID(o.Ref))
+			}
+			rmQ, errQ := proc.Resolve(ch.U.Suffix)
+			if kQ, kE := rmKey(rmQ, errQ), rmKey(rmE, errE); kQ != kE {
+				c.Violation(fmt.Sprintf("C04 after version queries on the same node the deactivated DID resolves differently: stored=[%s]\n   before: %s\n   after:  %s", histString(all), kE, kQ),
+					map[string]interface{}{"suffix": ch.U.Suffix, "stored": replayOps(all)})
+				return
+			}
+			c.Count("deactivated_nodes_queried_for_earlier_versions")
 			w := &hx.RecWriter{}
 			dh := dochandler.New(hx.Namespace, nil, intakePC, w, proc, hx.NopMetrics{}, dochandler.WithUnpublishedOperationStore(unpub, allOpTypes))
 			for _, e := range pool {
@@ -249,10 +265,13 @@ func checkC04(c *hx.Ctx) {
 			c.Sample(3, map[string]interface{}{"kind": "recover-supersedes", "base": histString(H), "early_updates": histString(E), "result": kH})
 		}
 	})
+	c04DeactivatedBeforeAnchoring(c)
+	c.Floor("dids_deactivated_before_anything_was_anchored", 20)
 	c04ThroughBatchFiles(c)
 	c04AfterInapplicableCompetitor(c)
 	c.Floor("deactivate_after_inapplicable_competitor", 40)
 	c.Floor("deactivations_through_batch_files", 40)
+	c.Floor("deactivated_nodes_queried_for_earlier_versions", 100)
 	c.Floor("deactivated_histories", 100)
 	c.Floor("long_form_of_deactivated_did", 50)
 	c.Floor("histories_crossing_the_genesis_of_a_stricter_version", 50)
@@ -471,4 +490,47 @@ func c04AfterInapplicableCompetitor(c *hx.Ctx) {
 		c.Count("deactivate_after_inapplicable_competitor")
 		c.Distinct("c04ic|" + histString(ops))
 	})
+}
+
+// c04DeactivatedBeforeAnchoring: create and deactivate are both still pending (unpublished-operation store on handler and
+// processor, nothing anchored yet). The DID is already dead: the resolution result says so (deactivated, empty document, no
+// commitments), and the handler refuses further operations for it.
+func c04DeactivatedBeforeAnchoring(c *hx.Ctx) {
+	r := c.Rng("pending-deactivate")
+	for i := 0; i < c.N(30, 300); i++ {
+		p := hx.BaseProtocol()
+		u := NewUniverse(r.Split(fmt.Sprint(i)), ref.SHA256, p, []string{hx.Pick(r, ref.KeyTypes), "P-256"})
+		u.BuildAlphabet(1, 2)
+		pc := hx.NewClient(hx.NewVersion(p, hx.VersionOpts{}))
+		pending := []*ref.Op{Place(u.Ops["C"], 5000, 0, "", 0)}
+		if i%3 == 1 {
+			pending = append(pending, Place(u.Ops["u01"], 5001, 0, "", 0))
+		}
+		pending = append(pending, Place(u.Ops["d0"], 5002, 0, "", 0))
+		unpub := &recUnpub{ops: ToAnchored(u.Suffix, pending)}
+		proc := processor.New("verif", hx.NewOpStore(), pc, processor.WithUnpublishedOperationStore(unpub))
+		w := &hx.RecWriter{}
+		dh := dochandler.New(hx.Namespace, nil, pc, w, proc, hx.NopMetrics{}, dochandler.WithUnpublishedOperationStore(unpub, allOpTypes))
+		c.Eval()
+		replay := map[string]interface{}{"suffix": u.Suffix, "pending": replayOps(pending)}
+		res, err := dh.ResolveDocument(hx.Namespace + ":" + u.Suffix)
+		if err != nil {
+			c.Violation("C04 a DID whose create and deactivate are both pending does not resolve: "+err.Error(), replay)
+			return
+		}
+		got, _ := roundTrip(res).(map[string]interface{})
+		md, _ := got["didDocumentMetadata"].(map[string]interface{})
+		method, _ := md["method"].(map[string]interface{})
+		doc, _ := got["didDocument"].(map[string]interface{})
+		replay["result"] = got
+		if md["deactivated"] != true || method["updateCommitment"] != nil || method["recoveryCommitment"] != nil || doc["verificationMethod"] != nil || doc["service"] != nil {
+			c.Violation(fmt.Sprintf("C04 a DID deactivated before anything was anchored is not reported as deactivated / empty / without commitments: deactivated=%v commitments=(%v, %v)", md["deactivated"], method["updateCommitment"], method["recoveryCommitment"]), replay)
+			return
+		}
+		if _, err := dh.ProcessOperation(u.Ops["r01"].Request, p.GenesisTime); err == nil || w.Calls() != 0 {
+			c.Violation("C04 the handler accepted a recover for a DID that was deactivated before anything was anchored", replay)
+			return
+		}
+		c.Count("dids_deactivated_before_anything_was_anchored")
+	}
 }
